@@ -299,8 +299,8 @@ end Adeu.Doc
 namespace Adeu.Doc
 open Adeu
 
-theorem nestedReplace_skip (s : Sess) (insId newText : Str) (comment : Option Str)
-    (h : (nestedReplace s insId newText comment).2 = false) : (nestedReplace s insId newText comment).1 = s := by
+theorem nestedReplace_skip (s : Sess) (pi : Nat) (insId newText : Str) (comment : Option Str)
+    (h : (nestedReplace s pi insId newText comment).2 = false) : (nestedReplace s pi insId newText comment).1 = s := by
   unfold nestedReplace at h ⊢
   split
   · rfl
@@ -357,7 +357,7 @@ theorem applyIndexed_skip_frame (s : Sess) (clean : Bool) (start len : Nat) (new
     split
     · rename_i iid hid
       simp only [hid] at h
-      rw [nestedReplace_skip s iid newText comment h]
+      rw [nestedReplace_skip s _ iid _ comment h]
     · rename_i hid
       simp only [hid] at h
       revert h
